@@ -1,7 +1,7 @@
 (** C18 -- Polynomial toolkit: construction and calculus laws (root finding is
     in Props/Properties_C18_roots.v).  Statements only; proofs in
     Proofs/Poly_Proofs.v.  Carrier: Coq reals. *)
-From Coq Require Import Reals List ZArith.
+From Coq Require Import Reals QArith Qreals List ZArith.
 From Coquelicot Require Import Coquelicot.
 From SB Require Import Base.Num Gen.Generated Model.Poly Spec.BezierSpec Proofs.Poly_Proofs.
 Import ListNotations.
